@@ -756,3 +756,15 @@ def freeze(x):
   if isinstance(x, dict):
     return tuple(sorted((k, freeze(v)) for k, v in x.items()))
   return x
+
+
+def subset_violation(A, B):
+  """z3 Bool: some present row of A has no identical present row in B (set inclusion)."""
+  if len(A.cols) != len(B.cols):
+    return True
+  ds = []
+  for g, r in A.slots:
+    if g is False:
+      continue
+    ds.append(AND(g, NOT(OR(*[AND(g2, row_ident(r, r2)) for g2, r2 in B.slots if g2 is not False]))))
+  return OR(*ds)
